@@ -472,6 +472,12 @@ def compare(case: Case, model: dict, impl: dict) -> list[tuple[str, str]]:
                     continue
                 if not (vb[0] == "raw" and close(ref, vb[1])):
                     diffs.append(("rp", f"node {n} {case.keyname[k]}: impl {vb[1]!r} != value of the mask the model used {ref!r}"))
+            elif va[0] == "t" and vb[0] == "raw":
+                # a caller-supplied value for a managed feature that no annotator overwrote
+                rv = vb[1]
+                okv = (all(float(x) == va[1] for x in rv) if isinstance(rv, (list, tuple)) else float(rv) == va[1])
+                if not okv:
+                    diffs.append(("rp", f"node {n} {case.keyname.get(k, k)}: model keeps supplied value {va[1]}, impl {rv!r}"))
             elif va != vb:
                 fld = "rp" if (k in RP_KEYS and case.cfg == "seg") else "attr"
                 diffs.append((fld, f"node {n} attr {case.keyname.get(k, k)} model {va} impl {vb}"))
